@@ -114,6 +114,9 @@ class Interp:
                     g[nm] = tgt
             elif isinstance(st, (ast.FunctionDef, ast.ClassDef)):
                 g[st.name] = Func(f"{rel}::{st.name}", st)
+            elif isinstance(st, (ast.Assign, ast.AnnAssign)) and _is_empty_dict(st.value) and isinstance(st.targets[0] if isinstance(st, ast.Assign) else st.target, ast.Name):
+                # a module-level memo dictionary: analysed cold (empty); staleness of its entries is the cache-key rule's business
+                g[(st.targets[0] if isinstance(st, ast.Assign) else st.target).id] = DictVal()
             elif isinstance(st, ast.Assign) and len(st.targets) == 1 and isinstance(st.targets[0], ast.Name):
                 try:
                     g[st.targets[0].id] = libmodel.const_value(ast.literal_eval(st.value))
@@ -742,6 +745,12 @@ class Interp:
 
 
 # ---------------------------------------------------------------------------- helpers
+def _is_empty_dict(v):
+    if v is None: return False
+    if isinstance(v, ast.Dict) and not v.keys: return True
+    return isinstance(v, ast.Call) and ast.unparse(v.func) in ("dict", "OrderedDict", "collections.OrderedDict") and not v.args and not v.keywords
+
+
 def _load(t):
     import copy
     t2 = copy.copy(t); t2.ctx = ast.Load()
